@@ -461,11 +461,23 @@ impl SchemaConverter {
 
 /// Join the members of a union type. A union without members (`"type": []`, an empty
 /// `oneOf`/`anyOf`, an `enum` without string values) places no constraint: it is `any`.
+/// A nullable member is parenthesised: in `A? | B` the `?` ends the type and the annotation
+/// parser ignores or rejects the rest, `(A?) | B` is the union that is meant.
 fn join_union(types: &[String]) -> String {
-    if types.is_empty() {
-        "any".to_string()
-    } else {
-        types.join(" | ")
+    match types {
+        [] => "any".to_string(),
+        [single] => single.clone(),
+        _ => types
+            .iter()
+            .map(|ty| {
+                if ty.ends_with('?') {
+                    format!("({})", ty)
+                } else {
+                    ty.clone()
+                }
+            })
+            .collect::<Vec<_>>()
+            .join(" | "),
     }
 }
 
